@@ -1,12 +1,14 @@
 #!/venv/bin/python
 """Confirm a seeded change and run a property check against it.
 
-  try_seed.py <incoming-dir> <Cxx> [--no-confirm] [--tier quick]
+  try_seed.py <incoming-dir> <Cxx> [--no-confirm] [--confirm-only] [--scratch] [--tier quick]
 
 1. confirmation in a scratch worktree of /repo HEAD (outside /repo and /verif): patch applies, demo exits 1
    with it and 0 without, the repository's tests pass with it;
 2. detection: the patch is applied to /repo itself (git apply), the check is run, and the patch is undone
    straight afterwards (git checkout -- .).
+   With --scratch the detection runs against a second scratch worktree instead (VERIF_REPO=<worktree>), so that several
+   seeds can be tried at once; a seed a check misses there is tried again on /repo itself.
 Writes <incoming-dir>/result.json."""
 import json
 import os
@@ -72,6 +74,33 @@ def main():
             sh("git -C /repo worktree remove --force %s" % wt)
         out["confirmed"] = (out.get("demo_without") == 0 and out.get("demo_with") == 1 and " passed" in out.get("tests_with", "")
                             and "failed" not in out.get("tests_with", ""))
+    if "--confirm-only" in sys.argv:
+        with open(os.path.join(d, "result.json"), "w") as f:
+            json.dump(out, f, indent=1)
+        print(json.dumps(out, indent=1))
+        return 0
+    if "--scratch" in sys.argv:
+        wt = "/tmp/detwt_%d" % os.getpid()
+        sh("git -C /repo worktree add --detach %s HEAD" % wt)
+        try:
+            rc, o = sh("git apply %s" % patch, cwd=wt)
+            if rc != 0:
+                out["detect"] = "patch does not apply: " + o[-300:]
+            else:
+                t = time.time()
+                rc, o = sh("/venv/bin/python vcheck.py %s --tier %s" % (pid, tier), cwd="/verif", env={"VERIF_REPO": wt})
+                out["check_rc"] = rc
+                out["check_wall"] = round(time.time() - t, 1)
+                out["detect_on"] = "scratch worktree of /repo HEAD with the patch applied (VERIF_REPO)"
+                lines = [l for l in o.splitlines() if l.startswith("VIOLATION") or l.startswith("  module") or l.startswith("MACHINERY")]
+                out["check_lines"] = lines[:6]
+                out["detected"] = (rc == 1)
+        finally:
+            sh("git -C /repo worktree remove --force %s" % wt)
+        with open(os.path.join(d, "result.json"), "w") as f:
+            json.dump(out, f, indent=1)
+        print(json.dumps(out, indent=1))
+        return 0
     # detection on /repo itself
     rc, o = sh("git -C /repo status --porcelain --untracked-files=no")
     if o.strip():
